@@ -2,7 +2,7 @@
 import ast
 
 from .. import quant
-from ..core import AnalysisError, U, bind_call, inline, path_facts, paths_of, positional_params
+from ..core import AnalysisError, U, bind_call, inline, path_facts, paths_of, positional_params, strip_noop_calls
 from ..hand import ctor_fields
 from ..registries import DTYPE_RANGE, qtype_table
 
@@ -191,7 +191,7 @@ def run(chk):
     for p in paths_of(qa):
         if p.end[0] == "return":
             e = p.end[1]
-            ok = isinstance(e, ast.Call) and U(e.func) == "SymmetricQuantizer.apply" and [U(a) for a in e.args] == [positional_params(qa)[0], positional_params(qa)[1], "None", positional_params(qa)[2]]
+            ok = isinstance(e, ast.Call) and U(e.func) == "SymmetricQuantizer.apply" and [U(strip_noop_calls(a)) for a in e.args] == [positional_params(qa)[0], positional_params(qa)[1], "None", positional_params(qa)[2]]
             chk.require("C01.R5", f"{ma.rel}:{p.end[2]}", ok, f"quantize_activation -> `{U(e)[:80]}`", "quantize_activation", "activation entry point", "any activation: another quantizer / scale / axis is used")
     mw, qw = repo.func("quantize_weight")
     tq, qtq, axq = positional_params(qw)[:3]
